@@ -191,6 +191,9 @@ func ruleC20(w *World) {
 	// R3: build-tagged siblings in package hash
 	w.ruleSiblings("C20.R3", repo)
 	w.ruleXorLanes("C20.R3", repo)
+	// R4: no dependence on the word size
+	w.floor("C20.R4", 1)
+	w.ruleWordSize("C20.R4", def)
 }
 
 func isTestHelperDecl(fd *ast.FuncDecl) bool {
@@ -508,4 +511,70 @@ func advancesBy8(word ssa.Value, buf *ssa.Parameter) bool {
 		return false
 	}
 	return fromBuf && adv
+}
+
+// ruleWordSize (C20.R4): results must not depend on the width of int/uint/uintptr (32 bits on GOARCH=386/arm/…): in the
+// pure-Go packages every conversion of a 64-bit integer to int / uint / uintptr is applied to a value the interval engine
+// bounds within 32 bits; otherwise the high half is dropped on 32-bit targets and the same inputs give other outputs.
+func (w *World) ruleWordSize(rule string, def *World) {
+	n := 0
+	seen := map[string]int{}
+	gWorld = def
+	for _, pp := range []string{hashPath, randomPath} {
+		for _, fn := range def.srcFuncs(pp) {
+			if isTestFile(def, fn.Pos()) {
+				continue
+			}
+			instrsFlat(fn, func(ins ssa.Instruction) {
+				cv, ok := ins.(*ssa.Convert)
+				if !ok {
+					return
+				}
+				to, ok1 := cv.Type().Underlying().(*types.Basic)
+				from, ok2 := cv.X.Type().Underlying().(*types.Basic)
+				if !ok1 || !ok2 {
+					return
+				}
+				if !(to.Kind() == types.Int || to.Kind() == types.Uint || to.Kind() == types.Uintptr) {
+					return
+				}
+				if !(from.Kind() == types.Uint64 || from.Kind() == types.Int64) {
+					return
+				}
+				if _, isC := cv.X.(*ssa.Const); isC {
+					return
+				}
+				n++
+				lo, hi, known := def.intBound(cv.X, cv)
+				limit := int64(1) << 31
+				if to.Kind() != types.Int {
+					limit = int64(1) << 32
+				}
+				key := fmt.Sprintf("%s/word-size:%s(%s)", fnKey(fn), to.Name(), shortCond(render(cv.X)))
+				seen[key]++
+				if seen[key] > 1 {
+					key += fmt.Sprintf("#%d", seen[key])
+				}
+				def.out = w.out
+				// a sample drawn below a bound that is itself an int: UintN(uint64(k)) < k (C15.R1: returned only under
+				// sample <= k-1), and k fits the platform's int by its type
+				if c, isCall := cv.X.(*ssa.Call); isCall && !(known && lo > -limit && hi < limit) {
+					if callee := c.Call.StaticCallee(); callee != nil && callee.Name() == "UintN" && len(c.Call.Args) == 2 {
+						if ac, isConv := c.Call.Args[1].(*ssa.Convert); isConv {
+							if ab, isB := ac.X.Type().Underlying().(*types.Basic); isB && (ab.Kind() == types.Int || ab.Kind() == types.Uint) && to.Kind() == ab.Kind() {
+								w.ok(rule, key, cv.Pos(), "sample drawn below a bound of the same word-sized type: UintN("+render(ac.X)+") < "+render(ac.X)+" (C15.R1)")
+								return
+							}
+						}
+					}
+				}
+				w.check(known && lo > -limit && hi < limit, rule, key, cv.Pos(), fmt.Sprintf("value in [%d,%d] fits a 32-bit %s", lo, hi, to.Name()),
+					fmt.Sprintf("a %s value that can reach %d..%d is converted to %s: on 32-bit targets (GOARCH=386, arm) the high bits are dropped, so the same inputs give different outputs than on 64-bit targets", from.Name(), lo, hi, to.Name()), factStrings(def.factsAt(cv))...)
+			})
+		}
+	}
+	w.stat("word_size_conversions", n)
+	if n == 0 {
+		w.ok(rule, "word-size/none", token.NoPos, "no conversion of a 64-bit integer to a word-sized type in hash/ and random/")
+	}
 }
